@@ -14,6 +14,53 @@
 #include <iomanip>
 #endif // DF__SQF_RUNTIME__ASSEMBLY_DEBUG_ON_EXECUTE
 
+// Handles a raised runtime error: passes control to the nearest enclosing frame
+// that is able (and willing) to recover from it.
+// Returns true if some frame took over, false if the error is unhandled.
+static bool handle_runtime_error(sqf::runtime::runtime& runtime, sqf::runtime::context& context_active, sqf::runtime::diagnostics::diag_info dinf)
+{
+    auto log_messages = runtime.log_messages;
+    runtime.log_messages.clear();
+    // Build Stacktrace
+    std::vector<sqf::runtime::frame> stacktrace_frames(context_active.frames_rbegin(), context_active.frames_rend());
+    sqf::runtime::diagnostics::stacktrace stacktrace(stacktrace_frames);
+
+    while (true)
+    {
+        // Try to find a frame that has recover behavior for runtime error
+        auto res = std::find_if(context_active.frames_rbegin(), context_active.frames_rend(),
+            [](sqf::runtime::frame& frame) -> bool { return frame.can_recover_runtime_error(); });
+        if (res == context_active.frames_rend())
+        { // No recover frame available
+            runtime.__logmsg(logmessage::runtime::Stacktrace(dinf, stacktrace));
+            runtime.__runtime_error() = false;
+            return false;
+        }
+        // We found a recoverable frame
+        stacktrace.value = std::make_shared<sqf::types::d_array>(log_messages.begin(), log_messages.end());
+        // Push Stacktrace to value-stack
+        context_active.push_value({ std::make_shared<sqf::types::d_stacktrace>(stacktrace) });
+
+        // Pop all frames between result and current_frame
+        size_t frames_to_pop = res - context_active.frames_rbegin();
+        for (size_t i = 0; i < frames_to_pop; i++)
+        {
+            context_active.pop_frame();
+        }
+
+        // Recover from exception
+        if (context_active.current_frame().recover_runtime_error(runtime) != sqf::runtime::frame::result::error)
+        {
+            runtime.__runtime_error() = false;
+            return true;
+        }
+        // The frame refused to recover (eg. the error was raised by its own handler code).
+        // Leave it too and look for the next enclosing frame.
+        context_active.clear_values();
+        context_active.pop_frame();
+    }
+}
+
 static sqf::runtime::runtime::result execute_do(sqf::runtime::runtime& runtime, size_t exit_after)
 {
     auto& context_active = runtime.context_active();
@@ -76,6 +123,16 @@ static sqf::runtime::runtime::result execute_do(sqf::runtime::runtime& runtime, 
         auto& frame = context_active.current_frame();
 
         auto result = frame.next(runtime);
+
+        if (runtime_error)
+        { // The exit behavior of the frame raised a runtime error (eg. wrong type returned to a loop).
+          // Handle it now, before anything else gets executed (or the script ends without it ever being noticed).
+            if (!handle_runtime_error(runtime, context_active, frame.diag_info_from_position()))
+            {
+                return sqf::runtime::runtime::result::runtime_error;
+            }
+            continue;
+        }
 
         if (result == sqf::runtime::frame::result::done && context_active.frames_size() == frame_count)
         { // frame is done executing. Pop it from context and rerun.
@@ -230,43 +287,14 @@ static sqf::runtime::runtime::result execute_do(sqf::runtime::runtime& runtime, 
         }
         else
         {
-            auto log_messages = runtime.log_messages;
-            runtime.log_messages.clear();
-            // Build Stacktrace
-            std::vector<sqf::runtime::frame> stacktrace_frames(context_active.frames_rbegin(), context_active.frames_rend());
-            sqf::runtime::diagnostics::stacktrace stacktrace(stacktrace_frames);
-
-            // Try to find a frame that has recover behavior for runtime error
-            auto res = std::find_if(context_active.frames_rbegin(), context_active.frames_rend(),
-                [](sqf::runtime::frame& frame) -> bool { return frame.can_recover_runtime_error(); });
-
-            if (res != context_active.frames_rend())
-            { // We found a recoverable frame
-                stacktrace.value = std::make_shared<sqf::types::d_array>(log_messages.begin(), log_messages.end());
-                // Push Stacktrace to value-stack
-                context_active.push_value({ std::make_shared<sqf::types::d_stacktrace>(stacktrace) });
-
-                // Pop all frames between result and current_frame
-                size_t frames_to_pop = res - context_active.frames_rbegin();
-                for (size_t i = 0; i < frames_to_pop; i++)
-                {
-                    context_active.pop_frame();
-                }
-
-                // Recover from exception
-                context_active.current_frame().recover_runtime_error(runtime);
-                runtime_error = false;
-            }
-            else
-            { // No recover frame available, exit method
+            if (!handle_runtime_error(runtime, context_active, (*instruction)->diag_info()))
+            { // No frame took over, exit method
 #ifdef DF__SQF_RUNTIME__ASSEMBLY_DEBUG_ON_EXECUTE
                 std::cout << "\x1B[33m[ASSEMBLY ASSERT]\033[0m" <<
                     "        " <<
                     "        " <<
                     "    " << "\x1B[36mEXIT execute_do\033[0m as runtime error occured" << std::endl;
 #endif // DF__SQF_RUNTIME__ASSEMBLY_DEBUG_ON_EXECUTE
-                runtime.__logmsg(logmessage::runtime::Stacktrace((*instruction)->diag_info(), stacktrace));
-                runtime_error = false;
                 return sqf::runtime::runtime::result::runtime_error;
             }
         }
